@@ -221,8 +221,8 @@ impl NtpDuration {
     /// Convert to an f64; required for statistical calculations
     /// (e.g. in clock filtering)
     pub fn to_seconds(self) -> f64 {
-        // dividing by u32::MAX moves the decimal point to the right position
-        self.duration as f64 / u32::MAX as f64
+        // dividing by 2^32 moves the binary point to the right position
+        self.duration as f64 / 4294967296.0
     }
 
     pub fn from_seconds(seconds: f64) -> Self {
@@ -233,7 +233,10 @@ impl NtpDuration {
 
         // Ensure proper saturating behaviour
         let duration = match i as i64 {
-            i if i32::try_from(i).is_ok() => (i << 32) | (f * u32::MAX as f64) as i64,
+            // f can round up to 1.0 for tiny negative inputs, keep the fraction within 32 bits
+            i if i32::try_from(i).is_ok() => {
+                (i << 32) | ((f * 4294967296.0) as i64).min(u32::MAX as i64)
+            }
             i if i < i32::MIN as i64 => i64::MIN,
             i if i > i32::MAX as i64 => i64::MAX,
             _ => unreachable!(),
